@@ -145,8 +145,12 @@ class Net:
             net.base = len(net.socks)
             if net.addrs is None:
                 raise real_socket.gaierror(-2, "Name or service not known")
-            return [(real_socket.AF_INET, real_socket.SOCK_STREAM, 6, "", (net.ip_base + str(i + 1), port))
-                    for i in range(len(net.addrs))]
+            if getattr(net, "v6", False):
+                # link-local IPv6 answers: the sockaddr is (host, port, flowinfo, scope_id) and is what connect() must be given
+                net.resolved = [(f"fe80::{i + 1:x}", port, 0, 3) for i in range(len(net.addrs))]
+                return [(real_socket.AF_INET6, real_socket.SOCK_STREAM, 6, "", a) for a in net.resolved]
+            net.resolved = [(net.ip_base + str(i + 1), port) for i in range(len(net.addrs))]
+            return [(real_socket.AF_INET, real_socket.SOCK_STREAM, 6, "", a) for a in net.resolved]
 
         def mk(family=-1, type=-1, proto=-1, fileno=None):
             s = FakeSock(net, len(net.socks))
